@@ -20,7 +20,7 @@ def run(pid, tier, seed, replay=None):
             raise vlib.Infra("Gen_Lifecycle BFS failed: %s\n%s" % (res.violated, res.out[-1500:]))
         ck.add_tlc("Gen_Lifecycle/MC_Lifecycle.cfg (BFS)", res)
         hist = []
-        res = vlib.run_tlc("Gen_Lifecycle", "Gen_Lifecycle.cfg", tag="lifegen", workers=4, simulate=(30 if tier == "quick" else 400),
+        res = vlib.run_tlc("Gen_Lifecycle", "Gen_Lifecycle.cfg", tag="lifegen", workers=4, simulate=(80 if tier == "quick" else 400),
                            depth=26, seed=seed, sink=hist.append, timeout=1500)
         if res.violated or not hist:
             raise vlib.Infra("Gen_Lifecycle simulation failed: %s\n%s" % (res.violated, res.out[-1500:]))
@@ -31,7 +31,7 @@ def run(pid, tier, seed, replay=None):
             if k not in seen:
                 seen.add(k)
                 uniq.append(h)
-        hist = uniq[: (150 if tier == "quick" else 3000)]
+        hist = uniq[: (400 if tier == "quick" else 3000)]
         # systematic single-fault sweeps: every position k of the injected failure for each fallible operation
         sweeps = []
         for k in range(0, 22):
